@@ -17,6 +17,7 @@ from ..models import _pushed_elems
 from .common import *
 
 Q = 'synth_utils::quantizer::Quantizer'
+Q_FIELDS = {'cached_conversion', 'allowed'}
 CONV = 'synth_utils::quantizer::Conversion'
 NOTE = 'synth_utils::quantizer::Note'
 FNN = Q + '::find_nearest_note'
@@ -83,7 +84,7 @@ def check_mask_invariant(res, facts):
             n = int_sym(st, 'n', lo, hi)
             outs = it.run(it.start(path, [n], state=st))
             res.absorb(it)
-            for o in outs:
+            for o in sem_iter(outs):
                 t = o.ret.fields[0].term if o.status == 'returned' and isinstance(o.ret, StructV) else None
                 exp = n.term if part == 'n<=11' else Poly.const(11)
                 res.ob('R-NEWTYPE', '%s|%s' % (path.split('::')[-2] + '::' + path.split('::')[-1], part), t == exp,
@@ -93,7 +94,7 @@ def check_mask_invariant(res, facts):
     it = qz.interp()
     outs = it.run(it.start(Q + '::new', []))
     res.absorb(it)
-    for o in outs:
+    for o in sem_iter(outs):
         a = o.ret.get('allowed') if o.status == 'returned' and isinstance(o.ret, StructV) else None
         lo, hi = o.ctx.rng(a.term) if a is not None else (None, None)
         res.ob('R-MASK', 'new()', a is not None and lo >= 1 and hi <= 4095, 'allowed after new() = %r' % (a,), where_of(facts, Q + '::new'))
@@ -112,7 +113,7 @@ def check_mask_invariant(res, facts):
             pre = copy.deepcopy(q)
             outs, cell = run_method(it, st, Q + '::' + meth, q, [notes])
             res.absorb(it)
-            for o in outs:
+            for o in sem_iter(outs):
                 inst = '%s|%s' % (meth, part)
                 if o.status != 'returned':
                     res.ob('R-MASK', inst, False, 'path ends with %s: %s' % (o.status, o.panic_info), where_of(facts, Q + '::' + meth), key='R-MASK:' + inst)
@@ -121,7 +122,7 @@ def check_mask_invariant(res, facts):
                 al = post.get('allowed')
                 lo, hi = o.ctx.rng(al.term)
                 res.ob('R-MASK', inst, lo >= 1 and hi <= 4095, 'allowed after %s in [%s,%s]; must stay a non-empty 12-bit mask' % (meth, lo, hi), where_of(facts, Q + '::' + meth), key='R-MASK:' + inst)
-                ch = set(changed_fields(pre, post))
+                ch = set(spec_fields_changed(pre, post, Q_FIELDS))
                 res.ob('R-WRITESET', inst, ch <= {'allowed'}, 'changed %s' % sorted(ch), where_of(facts, Q + '::' + meth), key='R-WRITESET:' + inst)
                 if meth == 'forbid' and part == 'len>=1':
                     # on the rescue path the mask is exactly the last note of the argument
@@ -139,10 +140,10 @@ def check_mask_invariant(res, facts):
     pre = copy.deepcopy(q)
     outs, cell = run_method(it, st, Q + '::is_allowed', q, [nt])
     res.absorb(it)
-    for o in outs:
+    for o in sem_iter(outs):
         exp = qz.enabled(Poly.sym('self.allowed'), nt.fields[0].term, o.ctx)
         ok = o.status == 'returned' and isinstance(o.ret, BoolV) and (o.ret.b == exp or o.ctx.decide(exp) == o.ctx.decide(o.ret.b) is not None)
-        res.ob('R-MASK', 'is_allowed', ok and not changed_fields(pre, o.cells[cell]), 'is_allowed = %r; expected bit `note` of the mask' % (o.ret,), where_of(facts, Q + '::is_allowed'))
+        res.ob('R-MASK', 'is_allowed', ok and not spec_fields_changed(pre, o.cells[cell], Q_FIELDS), 'is_allowed = %r; expected bit `note` of the mask' % (o.ret,), where_of(facts, Q + '::is_allowed'))
 
 
 def newtype_sites(res, facts, path, lo, hi):
@@ -202,7 +203,7 @@ def check_convert(res, facts, prop):
             allowed = Poly.sym('self.allowed')
             cc0 = pre.get('cached_conversion')
             ss0 = cc0.get('stairstep').term
-            for o in outs:
+            for o in sem_iter(outs):
                 n += 1
                 inst = 'convert|%s|%s' % (cached, vname)
                 if o.status != 'returned' or not isinstance(o.ret, StructV):
@@ -236,7 +237,7 @@ def check_convert(res, facts, prop):
                         if prop == 'C09':
                             res.ob('R-HYST', inst + '|early return only inside the window', lo_ok is True and hi_ok is True,
                                    'early return on a path where stairstep-H < v is %s and v < stairstep+W+H is %s' % (lo_ok, hi_ok), where, key='R-HYST:early-window')
-                            ch = set(changed_fields(pre, post))
+                            ch = set(spec_fields_changed(pre, post, Q_FIELDS))
                             res.ob('R-HYST', inst + '|early return rewrites only the fraction', ch <= {'cached_conversion.fraction'}, 'changed %s' % sorted(ch), where, key='R-HYST:early-writes')
                         fr1 = cc1.get('fraction')
                         res.ob('R-RECORD', inst + '|early fraction = v - stairstep', isinstance(fr1, Num) and fr1.term == v.term - ss0,
@@ -337,6 +338,11 @@ class SearchRun:
                 if isinstance(v, ContV) and v.kind in ('vec_iter', 'vec') and v.term not in seen_terms:
                     seen_terms.add(v.term)
                     self.vec_terms.append((v.term, st.ctx.copy()))
+                elif isinstance(v, StructV) and v.path.endswith('RangeInclusive') and isinstance(v.get('start'), Num):
+                    key = ('incl', v.get('start').term, v.get('end').term)
+                    if key not in seen_terms:
+                        seen_terms.add(key)
+                        self.vec_terms.append((key, st.ctx.copy()))
         saved = {l: copy.deepcopy(st.cells[fr.locals[l]]) for l in self.acc_locals}
         it.havoc_loop(st, fr, cfg, head)
         qz = self.qz
@@ -411,7 +417,15 @@ def check_search(res, facts, prop):
         # (i) the octaves searched: ascending, exactly {k-1 if k>=1, k, k+1 if k<MAX}
         if modes == ('A', 'A') and prop == 'C08':
             for term, ctx in run.vec_terms:
-                elems = _pushed_elems(term)
+                if isinstance(term, tuple) and term and term[0] == 'incl':
+                    # an inclusive range start..=end is ascending by construction; expand it over the (at most three) octaves
+                    lo_t, hi_t = term[1], term[2]
+                    elems = [e for e in (k0 - 1, k0, k0 + 1)
+                             if ctx.decide(cmp_term('Ge', e, lo_t)) is True and ctx.decide(cmp_term('Le', e, hi_t)) is True]
+                    if not (ctx.decide(cmp_term('Ge', lo_t, k0 - 1)) is True and ctx.decide(cmp_term('Le', hi_t, k0 + 1)) is True):
+                        elems = None
+                else:
+                    elems = _pushed_elems(term)
                 orders_seen += 1
                 ok = elems is not None and all(isinstance(e, Poly) for e in elems)
                 desc = 'octaves pushed: %r' % (elems,)
@@ -428,7 +442,7 @@ def check_search(res, facts, prop):
                 res.ob('R-SEARCHORDER', 'octave list %d' % orders_seen, ok, desc + ' — the early exits of the scan need ascending candidates over exactly the octaves k-1, k, k+1 that exist', where,
                        key='R-SEARCHORDER:%d' % orders_seen)
         # (ii) returns and back edges
-        for o in outs:
+        for o in sem_iter(outs, include_loopback=True):
             if o.status == 'returned':
                 n_ret += 1
                 r = o.ret
